@@ -56,4 +56,10 @@ PROPS = {
         'trusted_base': ['theorems in coq/props/C09.v about coq/theories/Term.v (proofs in TermFacts.v)'],
         'assumptions': COMMON_ASSUME + ['committee total weight < 2^64', 'the node is a member of the committee of the height (otherwise it has no term)', 'sort.Slice on at most 12 votes is stable (Go uses insertion sort below 12 elements); ties between equal proof views are irrelevant to the theorems'],
     },
+    'C20': {
+        'engines': [{'name': 'wire', 'quick_args': ['-n', '120'], 'thorough_args': ['-n', '2500']}],
+        'corr_modules': ['Wire', 'WireLH'],
+        'trusted_base': ['theorems in coq/props/C20.v about coq/theories/Wire.v and WireLH.v (proofs in WireFacts.v, WireLHFacts.v)'],
+        'assumptions': COMMON_ASSUME + ['every encoded part is below 2^32 bytes (membuffers Offset is uint32)', 'parsing is a pure function of the bytes (the readers keep no state besides a lazily computed offset table)'],
+    },
 }
